@@ -6,7 +6,6 @@ import (
 	"strings"
 	"time"
 
-	"github.com/knz/shakespeare/pkg/cmd"
 	"github.com/knz/shakespeare/verifharness/vh"
 )
 
@@ -141,20 +140,25 @@ func runC20(rng *rand.Rand, scale int, out string, shards int, seed int64, corpu
 		if hung {
 			break
 		}
-		var outs, errs []string
-		var pv [][2]string
-		var perr, pan string
-		if !guarded(func() { outs, errs, pv, perr, pan = cmd.VerifC20Preproc(c.Defines, c.paramText(), c.Strs) }) {
-			// preprocessing did not terminate: a failing input of its own
+		rs, st := call(&request{Kind: "pp", PP: &c})
+		if !st.OK {
+			if !st.Timeout && st.Fatal == "" {
+				break
+			}
+			// preprocessing did not terminate / killed the process: a failing input of its own
 			rec.Panic = "did not terminate"
+			if st.Fatal != "" {
+				rec.Panic = "fatal: " + st.Fatal
+			}
 			for range c.Strs {
 				rec.Outs = append(rec.Outs, "")
 				rec.Errs = append(rec.Errs, nil)
 			}
 			pps = append(pps, rec)
-			sum.Outcomes["pp-timeout"]++
-			break
+			sum.Outcomes["pp-timeout-or-fatal"]++
+			continue
 		}
+		outs, errs, pv, perr, pan := rs.Outs, rs.Errs, rs.PVars, rs.PErr, rs.PPanic
 		rec.Outs, rec.PVars, rec.PErr, rec.Panic = outs, pv, perr, pan
 		for _, e := range errs {
 			rec.Errs = append(rec.Errs, undefinedNames(e))
